@@ -157,6 +157,31 @@ def run(tier: str) -> int:
                     if out != "done u1 []":
                         rep.violation(f"family {name}({n}) v{v} {opts}: expected approve (independently computed), real TEAL gives {out[:200]}",
                                       {"family": name, "n": n, "version": v, "options": opts, "teal": res[1], "avm": out})
+    # ---- (3b) random ABI / by-reference call graphs with a plain-Python mirror
+    from abi_families import compile_case, gen_case
+    n_abi = 45 if tier == "quick" else 900
+    for i in range(n_abi):
+        builder, descr = gen_case(r)
+        v = r.choice([6, 7, 8, 9, 10])
+        opts = {"scratch_slots": r.choice([True, False])}
+        if v >= 8:
+            opts["frame_pointers"] = r.choice([True, False])
+        res = compile_case(builder, v, **opts)
+        fam_cases += 1
+        stats[f"abi-graph:compile:{res[0]}"] += 1
+        if res[0] == "crash":
+            rep.violation(f"ABI call graph v{v} {opts}: compiler crashed with {res[1]}: {res[2]}", {"descr": descr, "version": v, "options": opts})
+            continue
+        if res[0] != "ok":
+            stats[f"abi-graph:{res[1]}"] += 1
+            continue
+        a = d.ask(f"teal tfam {res[1].encode().hex()}")
+        out = d.ask("exec tfam cfam 600000") if a.startswith("ok") else a
+        stats["abi-graph:" + ("approve" if out == "done u1 []" else "other")] += 1
+        distinct.add(res[1])
+        if out != "done u1 []":
+            rep.violation(f"ABI call graph v{v} {opts}: the plain-Python mirror expects approval, real TEAL gives {out[:200]}",
+                          {"descr": descr, "version": v, "options": opts, "teal": res[1], "avm": out})
     d.close()
 
     # ---- (1) spill model tie + proofs
